@@ -149,14 +149,22 @@ class Package:
             file = self.cls(cls).file
             local_names = {n.id for n in ast.walk(fn) if isinstance(n, ast.Name) and isinstance(n.ctx, ast.Store)} | {a.arg for a in fn.args.args}
 
-            def usable(callee):
-                return callee is not None and not any(isinstance(n, ast.Name) and n.id == "super" for n in ast.walk(callee))
+            def usable(callee, owner=None, recv=None):
+                if callee is None:
+                    return False
+                sup = [n for n in ast.walk(callee) if isinstance(n, ast.Name) and n.id == "super"]
+                if not sup or owner != cls or recv != "self":
+                    return not sup
+                # a zero-argument `super()` means the same in a plain helper method of the very class whose method is read (same
+                # __class__ cell, same self) -- and only there
+                zero = [n for n in ast.walk(callee) if isinstance(n, ast.Call) and isinstance(n.func, ast.Name) and n.func.id == "super" and not n.args and not n.keywords]
+                return len(zero) == len(sup) and not callee.decorator_list and bool(callee.args.args) and callee.args.args[0].arg == "self"
 
             def resolve(call):
                 f = call.func
                 if isinstance(f, ast.Attribute) and isinstance(f.value, ast.Name) and f.value.id in ("self", "cls") and f.attr not in keep:
-                    _, callee = self.resolve(cls, f.attr)
-                    if usable(callee) and not any(ast.unparse(d) == "property" for d in callee.decorator_list):
+                    owner, callee = self.resolve(cls, f.attr)
+                    if usable(callee, owner, f.value.id) and not any(ast.unparse(d) == "property" for d in callee.decorator_list):
                         return callee, f.value
                 if isinstance(f, ast.Name) and f.id not in keep and f.id not in local_names and (file, f.id) in self.functions:
                     callee = self.functions[(file, f.id)]
